@@ -213,13 +213,25 @@ def monitor_hypergraph(mon, H, how, min_sizes=MIN_SIZES):
                 return fire(fn, opt, "differs-from-enumeration", f"{args}: returned {got!r}, exhaustive enumeration admits [{lo!r}, {hi!r}]")
         return True
 
-    def check_score(fn, args, got, o, eligible):
-        """range + closure clauses for one of the three simpliciality scores."""
-        mon.note("score-range-evaluations")
-        mon.ev()
+    def check_score(fn, args, got, o, eligible, exact=None, lo_hi=None):
+        """One of the three simpliciality scores: value (when something is eligible), range and closure clauses.
+
+        The value clause comes first: a wrong value usually also leaves [0, 1] or breaks the closure clause, and one
+        mechanism should be reported under one key.
+        """
         g = _num(got)
         if g is None:
             return fire(fn, "score", "not-a-number", f"{args}: returned {got!r}")
+        if eligible:
+            mon.ev()
+            if _isnan(g):
+                return fire(fn, "score", "nan-although-defined", f"{args}: NaN, enumeration gives {exact if exact is not None else lo_hi!r}")
+            if exact is not None and not _close(g, exact):
+                return fire(fn, "score", "differs-from-enumeration", f"{args}: returned {got!r}, exhaustive enumeration gives {exact!r}")
+            if exact is None and not (lo_hi[0] - TOL <= g <= lo_hi[1] + TOL):
+                return fire(fn, "score", "differs-from-enumeration", f"{args}: returned {got!r}, exhaustive enumeration admits [{lo_hi[0]!r}, {lo_hi[1]!r}]")
+        mon.note("score-range-evaluations")
+        mon.ev()
         if not _isnan(g) and not (-TOL <= g <= 1 + TOL):
             return fire(fn, "score", "outside-[0,1]", f"{args}: returned {got!r}")
         if o["closed"]:
@@ -229,7 +241,8 @@ def monitor_hypergraph(mon, H, how, min_sizes=MIN_SIZES):
                 if eligible:
                     return fire(fn, "downward-closed", "nan-although-eligible", f"{args}: NaN on an input that is downward closed above min_size and has eligible edges")
             elif not _close(g, 1.0):
-                return fire(fn, "downward-closed", "not-1", f"{args}: returned {got!r} on an input that is downward closed above min_size")
+                return fire(fn, "downward-closed", "not-1", f"{args}: returned {got!r} on an input that is downward closed above min_size"
+                            + ("" if eligible else " (nothing eligible: 1 or NaN expected)"))
         return True
 
     def settings():
@@ -260,80 +273,56 @@ def monitor_hypergraph(mon, H, how, min_sizes=MIN_SIZES):
                     mon.note("in:closed-with-eligible-edge-of-size>=3")
         ms, p_lo, p_hi = o["ms"], o["p_lo"], o["p_hi"]
         no_max = o["elig_max"] == 0
+        lo, hi, degenerate = _normalized_bounds(ms, p_lo, p_hi)
+        # normalize=False first: it is the definition the statement spells out; the normalized value and the
+        # score (1 - normalized distance) are only examined when the count itself was right.
+        norms = (False, True) if st is not None else (None,)
 
-        # ---- simplicial_edit_distance ------------------------------------------------
-        norms = (True, False) if st is not None else (None,)
+        # ---- simplicial_edit_distance / edit_simpliciality -------------------------------
+        ok = True
         for nz in norms:
             k = dict(kw) if nz is None else dict(kw, normalize=nz)
             mon.note("fn:simplicial_edit_distance")
             mon.ev()
             got = xgi.simplicial_edit_distance(H, **k)
             if nz is False:
-                ok = check_distance("simplicial_edit_distance", "normalize=False", f"{tag}", got, ms, None, no_max)
+                ok = check_distance("simplicial_edit_distance", "normalize=False", tag, got, ms, None, no_max)
                 if ok and not no_max and _num(got) != float(ms):
                     ok = fire("simplicial_edit_distance", "normalize=False", "differs-from-enumeration", f"{tag}: returned {got!r}, enumeration counts {ms}")
-                if not no_max:
-                    mon.note("val:sed>0" if ms else "val:sed=0")
-                else:
-                    mon.note("val:sed-nan")
+                mon.note("val:sed-nan" if no_max else ("val:sed>0" if ms else "val:sed=0"))
             else:
-                lo, hi, degenerate = _normalized_bounds(ms, p_lo, p_hi)
-                ok = check_distance("simplicial_edit_distance", "normalize=True", f"{tag}", got, None, (lo, hi), no_max or degenerate)
-                if not (no_max or degenerate):
+                ok = check_distance("simplicial_edit_distance", "normalize=True", tag, got, None, (lo, hi), no_max or degenerate)
+                if not (no_max or degenerate) and nz is True:
                     mon.note("val:sed-normalized-exact" if lo == hi else "val:sed-normalized-sandwich")
             if not ok:
                 break
-        # ---- edit_simpliciality --------------------------------------------------------
         mon.note("fn:edit_simpliciality")
-        mon.ev()
         got = xgi.edit_simpliciality(H, **kw)
-        lo, hi, degenerate = _normalized_bounds(ms, p_lo, p_hi)
-        if check_score("edit_simpliciality", tag, got, o, eligible=not (no_max or degenerate)):
-            g = _num(got)
-            if no_max or degenerate:
-                pass  # NaN or 1, already demanded by the closure clause (nothing eligible => closed)
-            elif _isnan(g):
-                fire("edit_simpliciality", "score", "nan-although-defined", f"{tag}: NaN, enumeration admits [{1 - hi!r}, {1 - lo!r}]")
-            elif not (1 - hi - TOL <= g <= 1 - lo + TOL):
-                fire("edit_simpliciality", "score", "differs-from-enumeration", f"{tag}: returned {got!r}, enumeration admits [{1 - hi!r}, {1 - lo!r}]")
+        if ok:
+            check_score("edit_simpliciality", tag, got, o, eligible=not (no_max or degenerate), lo_hi=(1 - hi, 1 - lo))
         # ---- simplicial_fraction -------------------------------------------------------
         mon.note("fn:simplicial_fraction")
-        mon.ev()
         got = xgi.simplicial_fraction(H, **kw)
-        if check_score("simplicial_fraction", tag, got, o, eligible=o["elig"] > 0):
-            g = _num(got)
-            if o["sf"] is None:
-                if not (_isnan(g) or _close(g, 1.0)):
-                    fire("simplicial_fraction", "score", "defined-although-nothing-eligible", f"{tag}: returned {got!r} although no edge is eligible")
-            elif _isnan(g):
-                fire("simplicial_fraction", "score", "nan-although-defined", f"{tag}: NaN, enumeration gives {o['sf']!r}")
-            elif not _close(g, o["sf"]):
-                fire("simplicial_fraction", "score", "differs-from-enumeration", f"{tag}: returned {got!r}, enumeration gives {o['sf']!r} ({o['elig']} eligible edges)")
-            if st is not None and o["sf"] is not None:
-                mon.note("val:sf=1" if o["sf"] == 1 else ("val:sf=0" if o["sf"] == 0 else "val:sf-strictly-between-0-and-1"))
-        # ---- mean_face_edit_distance ---------------------------------------------------
+        check_score("simplicial_fraction", tag, got, o, eligible=o["sf"] is not None, exact=o["sf"])
+        if st is not None and o["sf"] is not None:
+            mon.note("val:sf=1" if o["sf"] == 1 else ("val:sf=0" if o["sf"] == 0 else "val:sf-strictly-between-0-and-1"))
+        # ---- mean_face_edit_distance / face_edit_simpliciality --------------------------
+        ok = True
         for nz in norms:
             k = dict(kw) if nz is None else dict(kw, normalize=nz)
             mon.note("fn:mean_face_edit_distance")
             mon.ev()
             got = xgi.mean_face_edit_distance(H, **k)
             exact = o["mfed_raw"] if nz is False else o["mfed_norm"]
-            if not check_distance("mean_face_edit_distance", f"normalize={nz is not False}", f"{tag}", got, exact, None, no_max):
+            ok = check_distance("mean_face_edit_distance", f"normalize={nz is not False}", tag, got, exact, None, no_max)
+            if not ok:
                 break
             if nz is True and exact is not None and 0 < exact < 1:
                 mon.note("val:mfed-strictly-between-0-and-1")
-        # ---- face_edit_simpliciality ---------------------------------------------------
         mon.note("fn:face_edit_simpliciality")
-        mon.ev()
         got = xgi.face_edit_simpliciality(H, **kw)
-        if check_score("face_edit_simpliciality", tag, got, o, eligible=not no_max):
-            g = _num(got)
-            if no_max:
-                pass
-            elif _isnan(g):
-                fire("face_edit_simpliciality", "score", "nan-although-defined", f"{tag}: NaN, enumeration gives {1 - o['mfed_norm']!r}")
-            elif not _close(g, 1 - o["mfed_norm"]):
-                fire("face_edit_simpliciality", "score", "differs-from-enumeration", f"{tag}: returned {got!r}, enumeration gives {1 - o['mfed_norm']!r}")
+        if ok:
+            check_score("face_edit_simpliciality", tag, got, o, eligible=not no_max, exact=None if no_max else 1 - o["mfed_norm"])
     return orc
 
 
